@@ -24,7 +24,8 @@ Record level := {
   l_super : bool;          (* the body calls super().step(...) *)
   l_fwd : bool;            (* ... with its own arguments (else with none) *)
   l_stop : option Z;       (* after that: if self.steps >= k: self.running = False *)
-  l_raise : option Z       (* right after logging: if self.steps == k: raise *)
+  l_raise : option Z;      (* right after logging: if self.steps == k: raise *)
+  l_rec : option Z         (* then: if self.steps < k: self.step()   - a recursive call through the wrapper *)
 }.
 Definition hierarchy := list level.
 
@@ -38,8 +39,11 @@ Definition opt_is (o : option Z) (f : Z -> bool) : bool := match o with Some k =
 Definition clear_running (st : mstate) : mstate := {| steps := steps st; running := false |}.
 
 (* calling the step attribute looked up on the classes h (h = the MRO from some class downwards, idx = the
-   position of its head in the whole hierarchy) *)
-Fixpoint call_chain (h : hierarchy) (idx mid : Z) (st : mstate) (args : list Z)
+   position of its head in the whole hierarchy).  With multiple inheritance h is the C3 linearisation of the
+   instance's class: super() continues at the NEXT class of that list, whichever base it came from.
+   `rec st` is what a nested self.step() (no arguments) does - the instance attribute, i.e. the wrapper again. *)
+Fixpoint call_chain (rec : mstate -> mstate * list event * status)
+                    (h : hierarchy) (idx mid : Z) (st : mstate) (args : list Z)
   : mstate * list event * status :=
   match h with
   | [] => match args with [] => (st, [], Ok) | _ :: _ => (st, [], ErrType) end      (* Model.step(self) *)
@@ -49,20 +53,35 @@ Fixpoint call_chain (h : hierarchy) (idx mid : Z) (st : mstate) (args : list Z)
           let ev := {| e_inst := mid; e_lvl := idx; e_seen := steps st; e_run := running st; e_args := args |} in
           if opt_is (l_raise l) (fun k => steps st =? k) then (st, [ev], ErrBoom)
           else
-            let '(st1, evs, r) :=
-              if l_super l then call_chain t (idx + 1) mid st (if l_fwd l then args else [])
-              else (st, [], Ok) in
-            match r with
-            | Ok => (if opt_is (l_stop l) (fun k => steps st1 >=? k) then clear_running st1 else st1, ev :: evs, Ok)
-            | _ => (st1, ev :: evs, r)
+            let '(st0, evr, rr) := if opt_is (l_rec l) (fun k => steps st <? k) then rec st else (st, [], Ok) in
+            match rr with
+            | Ok =>
+                let '(st1, evs, r) :=
+                  if l_super l then call_chain rec t (idx + 1) mid st0 (if l_fwd l then args else [])
+                  else (st0, [], Ok) in
+                match r with
+                | Ok => (if opt_is (l_stop l) (fun k => steps st1 >=? k) then clear_running st1 else st1,
+                         ev :: evr ++ evs, Ok)
+                | _ => (st1, ev :: evr ++ evs, r)
+                end
+            | _ => (st0, ev :: evr, rr)
             end
         else (st, [], ErrType)
-      else call_chain t (idx + 1) mid st args
+      else call_chain rec t (idx + 1) mid st args
   end.
 
-(* Model._wrapped_step, i.e. what instance.step( *args) runs *)
+Definition incr (st : mstate) : mstate := {| steps := steps st + 1; running := running st |}.
+
+(* Model._wrapped_step, i.e. what instance.step( *args) runs; fuel bounds the depth of recursive self.step() *)
+Fixpoint wrapped (fuel : nat) (h : hierarchy) (mid : Z) (st : mstate) (args : list Z)
+  : mstate * list event * status :=
+  match fuel with
+  | O => (incr st, [], OutOfFuel)
+  | S f => call_chain (fun s => wrapped f h mid s []) h 0 mid (incr st) args
+  end.
+Definition CALL_FUEL : nat := 40.
 Definition wrapped_step (h : hierarchy) (mid : Z) (st : mstate) (args : list Z) : mstate * list event * status :=
-  call_chain h 0 mid {| steps := steps st + 1; running := running st |} args.
+  wrapped CALL_FUEL h mid st args.
 
 (* Model.run_model; the harness lets the loop make at most `fuel` calls and aborts the next one on entry *)
 Fixpoint run_model (fuel : nat) (h : hierarchy) (mid : Z) (st : mstate) : mstate * list event * status :=
